@@ -660,8 +660,8 @@ func (sema *ExprSemanticsChecker) checkArrayDeref(n *ArrayDerefNode) ExprType {
 	case AnyType:
 		return &ArrayType{AnyType{}, true}
 	case *ArrayType:
-		ty.Deref = true
-		return ty
+		// Do not modify `ty` since the type object may be shared with other expressions
+		return &ArrayType{ty.Elem, true}
 	case *ObjectType:
 		// Object filtering is available for objects, not only arrays (#66)
 
